@@ -11,6 +11,7 @@ import PsModel.SieveTable
 import PsModel.Erat
 import PsModel.Parallel
 import PsModel.Store
+import PsModel.NthPrime
 
 open Ps
 
@@ -253,6 +254,47 @@ def storeLine (op : String) : String :=
     | _, _, _ => "bad-op"
   | _ => "bad-op"
 
+
+def countFn (a b : Nat) : Nat := (countSum a b).1
+
+def showNth : Except Err Nat → String
+  | .ok v => s!"v={v}"
+  | .error _ => "ERR"
+
+/-- avgPrimeGap of nthPrime.cpp: (uint64_t)(log(max(8, n)) + 2) -/
+def avgGapF (n : Nat) : Nat := ((fmax 8.0 (toF n)).log + 2).toUInt64.toNat
+
+@[noinline] def nthWithTable (t : ByteArray) (lo hi : Nat) (kf : Nat → Nat) (o : NthOracle) (n : Int) (start : Nat) :
+    Except Err Nat :=
+  nthPrime { isPrime := tableIsPrime lo hi t, o := floatOracle } kf countFn o n start
+
+/-- `nth <n> <start> <threads> <kib> <api>`: the model is run with two different approximation
+    oracles (never counting / over-estimating so that counting and the backward walk run); the
+    result must not depend on them -/
+def nthLine (op : String) : String :=
+  match (op.splitOn " ").filter (· ≠ "") with
+  | ["nth", a, b, _t, _k, _api] =>
+    match a.toInt?, b.toNat? with
+    | some n, some start =>
+      let o1 : NthOracle := { piA := fun _ => 0, nthA := fun _ => start, avgGap := avgGapF, isqrt := Nat.sqrt }
+      let o2 : NthOracle :=
+        { piA := fun _ => 0
+          nthA := fun _ => if n > 0 then min umax (start + n.natAbs * 40 + 1000) else start - min start (n.natAbs * 40 + 1000)
+          avgGap := avgGapF, isqrt := Nat.sqrt }
+      let small := n.natAbs ≤ 20000 ∧ start ≤ 100000000000000
+      let w := 25000000
+      let lo := start - min start w
+      let hi := start + w
+      if hi ≤ 200000000000000 ∧ n.natAbs ≤ 400000 then
+        let t := segmentTable lo hi
+        let r1 := nthWithTable t lo hi (fun _ => 1024) o1 n start
+        let r2 := if small then nthWithTable t lo hi (fun _ => 64) o2 n start else r1
+        if showNth r1 = showNth r2 then showNth r1 else s!"{showNth r1} MODEL-INCONSISTENT alt={showNth r2}"
+      else
+        showNth (nthPrime driverEnv (fun _ => 1024) countFn o1 n start)
+    | _, _ => "bad-op"
+  | _ => "bad-op"
+
 partial def lineLoop (h : IO.FS.Stream) (f : String → String) : IO Unit := do
   let line ← h.getLine
   if line.isEmpty then return ()
@@ -272,6 +314,7 @@ def main (args : List String) : IO UInt32 := do
     | "count" => lineLoop s countLine; return 0
     | "print" => lineLoop s printLine; return 0
     | "store" => lineLoop s storeLine; return 0
+    | "nth" => lineLoop s nthLine; return 0
     | "bench" =>
       let n := (← IO.FS.readFile file).trimAscii.toString.toNat?.getD 1000
       let t00 ← IO.monoMsNow
